@@ -19,4 +19,9 @@ def tables(md, repo, lean_str_list):
         groups.setdefault(ast.unparse(node), []).append(kw)
     out.append("/-- selection keywords: attribute chain and all its spellings (SelectionKeyword.keyword_aliases) -/")
     out.append("def selKeywords : List (String × List String) := [" + ", ".join('("%s", %s)' % (k, lean_str_list(sorted(v))) for k, v in sorted(groups.items())) + "]")
+    # DSSP simplified alphabet (mdtraj/geometry/dssp.py: SIMPLIFIED_CODE_TRANSLATION)
+    from mdtraj.geometry import dssp as D
+    tr = D.SIMPLIFIED_CODE_TRANSLATION
+    out.append("/-- dssp.py SIMPLIFIED_CODE_TRANSLATION: full DSSP code -> simplified code -/")
+    out.append("def dsspSimplified : List (Char × Char) := [" + ", ".join("('%s', '%s')" % (chr(k), chr(v) if isinstance(v, int) else v) for k, v in sorted(tr.items())) + "]")
     return out
